@@ -21,7 +21,7 @@ func init() {
 		Explanation: "Decided (structure only): R1 debit before effect — dial/exchange primitives of the resolution packages are called only from the enumerated egress owners; in Resolver.exchange every dial, pooled-connection use and wire exchange is behind the BeginResolutionAttempt* nil edge and (ledger present) the Debit/DebitBestEffort(OutboundQuery) nil edge; dnsclient.(*Client).Exchange dials only across BeforeAttempt's nil edge (or BeforeAttempt==nil) and every dnsclient.Client literal outside the startup probe installs a BeforeAttempt closure whose result is BeginResolutionAttempt's or DebitRecursionWork(OutboundQuery)'s error; pipelineQueryer.Query and Resolver.subQuery reach ch.Next / resolve only across DebitRecursionWork(InternalQuery)==nil; signature, DS-digest and NSEC3 hash computations are behind their Begin* nil edges. " +
 			"R2 the ledger cannot be exceeded or reset — in debit the counter is touched only by Add on the shadow arm and by CompareAndSwap(used, used+1) behind used<limit; ledger counters are otherwise only Loaded; every path of debit/reject/checkLocal that crossed Mode==Shadow returns nil; nothing happens before Enabled(); policy is written only at construction; requestLedgers.work changes only by CompareAndSwap(nil, new); ledgers are constructed only in ensureRecursionWork; Chain.Next establishes one only at pos==0. " +
 			"R3 every RecursionWorkKind constant is in exactly one of aggregateDimension / localDimension, and EnforcementError's range check names the largest kind. " +
-			"R4 cacheableResolutionFailure ≡ ctx alive ∧ ¬best-effort ∧ no enforcement error ∧ no request-local failure, and the response writer records a failure only across its true edge; the over-budget reply is built with RcodeServerFailure and the ledger's EDE. " +
+			"R4 (decision table on the CFG) cacheableResolutionFailure ≡ ctx alive ∧ ¬best-effort ∧ no enforcement error ∧ no request-local failure, and the response writer records a failure only across its true edge; the over-budget reply is built with RcodeServerFailure and the ledger's EDE. " +
 			"R5 recursion inventory — the call graph of middleware/... (static calls, function values, interface invokes resolved by types.Implements over module types) minus the three ranked heads (Chain.Next, pipelineQueryer.Query, Resolver.resolve) has exactly the tabled cyclic SCCs; every intra-cycle call of a head is a tabled back-edge; every call of resolve carries a recognised rank (level++, depth>0, nomin one-shot, error-count one-shot) or builds a fresh state in a tabled entry; heads and self-recursions check their own bound; depth constants are bounded.",
 		NotDecided: []string{
 			"the numeric bound on packets per request for all topologies (value-level; needs the product of the nested bounds)",
@@ -117,21 +117,21 @@ func c12R1(c *Ctx) {
 			egress = append(egress, s)
 		}
 	}
-	c.WhoMay(R, "network egress primitive", egress, map[string]string{
+	c.c07WhoMay(R, "network egress primitive", egress, map[string]string{
 		"(*" + c07res + ".Resolver).exchange": "debits in its prologue (below)",
 		"(*" + c07res + ".Resolver).dialUDP":  "called only by exchange",
 		"(*" + c07dc + ".Client).dial":        "called only by Client.Exchange after BeforeAttempt",
 		c07dc + ".dohExchange":                "called only by Client.Exchange after BeforeAttempt",
 		"middleware/forwarder.newDoHServer":   "DoH transport dial hook, runs under dohExchange's http.Client.Do",
 	})
-	c.WhoMay(R, "call Resolver.dialUDP", c.CallSites(dialUDP), map[string]string{"(*" + c07res + ".Resolver).exchange": "UDP fast path"})
-	c.WhoMay(R, "call Resolver.exchange", c.CallSites(rexObj), map[string]string{
+	c.c07WhoMay(R, "call Resolver.dialUDP", c.CallSites(dialUDP), map[string]string{"(*" + c07res + ".Resolver).exchange": "UDP fast path"})
+	c.c07WhoMay(R, "call Resolver.exchange", c.CallSites(rexObj), map[string]string{
 		"(*" + c07res + ".Resolver).exchange":    "retry / TCP fallback / no-EDNS retry through the same prologue",
 		"(*" + c07res + ".Resolver).queryServer": "one attempt per selected server",
 	})
-	c.WhoMay(R, "call Client.dial", c.CallSites(clientDial), map[string]string{"(*" + c07dc + ".Client).Exchange": "after BeforeAttempt"})
-	c.WhoMay(R, "call dohExchange", c.CallSites(doh), map[string]string{"(*" + c07dc + ".Client).Exchange": "after BeforeAttempt"})
-	c.WhoMay(R, "call Client.Exchange", c.CallSites(clientExch), map[string]string{
+	c.c07WhoMay(R, "call Client.dial", c.CallSites(clientDial), map[string]string{"(*" + c07dc + ".Client).Exchange": "after BeforeAttempt"})
+	c.c07WhoMay(R, "call dohExchange", c.CallSites(doh), map[string]string{"(*" + c07dc + ".Client).Exchange": "after BeforeAttempt"})
+	c.c07WhoMay(R, "call Client.Exchange", c.CallSites(clientExch), map[string]string{
 		"(*" + c07dc + ".Client).Exchange":              "UDP→TCP fallback; BeforeAttempt inherited by the copied client",
 		"(*middleware/forwarder.Forwarder).ServeDNS":    "client literal with BeforeAttempt (below)",
 		"(*middleware/failover.ResponseWriter).WriteMsg": "client literal with BeforeAttempt (below)",
@@ -141,14 +141,24 @@ func c12R1(c *Ctx) {
 	// (b) Resolver.exchange prologue
 	if rex := c.fn(R, c07res+".(*Resolver).exchange"); rex != nil {
 		effect := isCallTo(dialUDP, dialCtx, exchInt, poolGet)
-		c.MustCross(R, rex, "dial / exchange (attempt guard)", effect, OnFalse("BeginResolutionAttempt err", c07Holds(CallTo(begin, beginCanon))))
-		c.MustCross(R, rex, "dial / exchange (work debit)", effect, OnFalse("Debit err", c07Holds(CallTo(debit, debitBE))), OnFalse("rs.work", FieldIs(workF)))
-		for _, in := range instrsWhere(rex, isPlainCallTo(debit, debitBE)) {
-			key := R + "|Resolver.exchange|debit kind"
-			if isKind(outbound)(Desc(callArg(in, 1))) {
-				c.ok(R, key, instrPos(in), "debits RecursionWorkOutboundQuery")
+		// the prologue may be inline or an extracted unexported helper whose nil returns crossed the same edges
+		c.MustCross(R, rex, "dial / exchange (attempt guard)", effect,
+			c.c07LiftAny("BeginResolutionAttempt err=false", OnFalse("BeginResolutionAttempt err", c07Holds(CallTo(begin, beginCanon)))))
+		c.MustCross(R, rex, "dial / exchange (work debit)", effect,
+			c.c07LiftAny("Debit err=false,rs.work=false", OnFalse("Debit err", c07Holds(CallTo(debit, debitBE))), OnFalse("rs.work", FieldIs(workF))))
+	}
+	// every direct ledger debit in package resolver is an OutboundQuery debit
+	for _, f := range []*types.Func{debit, debitBE} {
+		for _, s := range c.CallSites(f) {
+			pk := fnPkg(s.Fn)
+			if pk == nil || !strings.HasSuffix(pk.Path(), "/"+c07res) || s.Kind == "ref" {
+				continue
+			}
+			key := R + "|" + fnKey(TopLevel(s.Fn)) + "|debit kind"
+			if isKind(outbound)(Desc(callArg(s.Instr, 1))) {
+				c.ok(R, key, instrPos(s.Instr), "debits RecursionWorkOutboundQuery")
 			} else {
-				c.violation(R, key, instrPos(in), "exchange debits a kind other than RecursionWorkOutboundQuery: "+Desc(callArg(in, 1)).String())
+				c.violation(R, key, instrPos(s.Instr), "the resolver's transport path debits a kind other than RecursionWorkOutboundQuery: "+Desc(callArg(s.Instr, 1)).String())
 			}
 		}
 	}
@@ -160,7 +170,7 @@ func c12R1(c *Ctx) {
 			return e != nil && e.K == ECall && e.X != nil && FieldIs(beforeF)(e.X)
 		}
 		c.MustCross(R, cex, "dial / DoH exchange", isCallTo(clientDial, doh),
-			OnFalse("BeforeAttempt err", beforeCall), OnFalse("BeforeAttempt==nil", FieldIs(beforeF)))
+			c.c07LiftAny("BeforeAttempt err=false,BeforeAttempt==nil=false", OnFalse("BeforeAttempt err", beforeCall), OnFalse("BeforeAttempt==nil", FieldIs(beforeF))))
 	}
 
 	// (d) every Client literal installs the accounting hook
@@ -276,7 +286,7 @@ func c12R1(c *Ctx) {
 
 	// (e) internal sub-queries
 	if qf := c.fn(R, c12mw+".(*pipelineQueryer).Query"); qf != nil {
-		c.MustCross(R, qf, "ch.Next", isCallTo(next), OnFalse("DebitRecursionWork err", CallTo(debitCtx)))
+		c.MustCross(R, qf, "ch.Next", isCallTo(next), c.c07LiftAny("DebitRecursionWork err=false", OnFalse("DebitRecursionWork err", CallTo(debitCtx))))
 		for _, in := range instrsWhere(qf, isPlainCallTo(debitCtx)) {
 			key := R + "|pipelineQueryer.Query|debit kind"
 			if isKind(internal)(Desc(callArg(in, 1))) {
@@ -287,7 +297,7 @@ func c12R1(c *Ctx) {
 		}
 	}
 	if sf := c.fn(R, c07res+".(*Resolver).subQuery"); sf != nil {
-		c.MustCross(R, sf, "r.resolve", isCallTo(resolve), OnFalse("DebitRecursionWork err", CallTo(debitCtx)))
+		c.MustCross(R, sf, "r.resolve", isCallTo(resolve), c.c07LiftAny("DebitRecursionWork err=false", OnFalse("DebitRecursionWork err", CallTo(debitCtx))))
 		for _, in := range instrsWhere(sf, isPlainCallTo(debitCtx)) {
 			key := R + "|Resolver.subQuery|debit kind"
 			if isKind(internal)(Desc(callArg(in, 1))) {
@@ -521,7 +531,7 @@ func c12R2(c *Ctx) {
 			}
 		}
 	}
-	c.WhoMay(R, "call aggregateDimension", c.CallSites(aggr), map[string]string{
+	c.c07WhoMay(R, "call aggregateDimension", c.CallSites(aggr), map[string]string{
 		"(*middleware.RecursionWorkLedger).debit": "the only mutator",
 		"(*middleware.RecursionWorkLedger).limit": "reads the limit only",
 	})
@@ -542,11 +552,11 @@ func c12R2(c *Ctx) {
 			c.ok(R, R+"|limit|counter unused", lf.Pos(), "limit() ignores the counter pointer")
 		}
 	}
-	c.WhoMay(R, "store RecursionWorkLedger.policy", c.StoreSites(policyF), map[string]string{"middleware.NewRecursionWorkLedger": "immutable after construction"})
+	c.c07WhoMay(R, "store RecursionWorkLedger.policy", c.StoreSites(policyF), map[string]string{"middleware.NewRecursionWorkLedger": "immutable after construction"})
 
 	// one ledger per tree
 	if nl := c.fobj(R, c12mw+".NewRecursionWorkLedger"); nl != nil {
-		c.WhoMay(R, "call NewRecursionWorkLedger", c.CallSites(nl), map[string]string{"(*middleware.ResponseMeta).ensureRecursionWork": "first recursive work of the tree"})
+		c.c07WhoMay(R, "call NewRecursionWorkLedger", c.CallSites(nl), map[string]string{"(*middleware.ResponseMeta).ensureRecursionWork": "first recursive work of the tree"})
 	}
 	if wf := c.field(R, c12mw+".requestLedgers.work"); wf != nil {
 		n := 0
@@ -711,65 +721,29 @@ func c12R4(c *Ctx) {
 	if cacheable == nil || record == nil || eff == nil || be == nil || enf == nil || loc == nil {
 		return
 	}
-	if fd, pk := c.P.FuncDecl(pkg + ".cacheableResolutionFailure"); fd == nil || fd.Body == nil {
-		c.unresolved(R, "cacheableResolutionFailure", "syntax not found")
-	} else {
-		callee := func(e ast.Expr, info *types.Info) types.Object {
-			call, ok := ast.Unparen(e).(*ast.CallExpr)
-			if !ok {
-				return nil
+	// the formula is decided on the CFG, so the && chain and the equivalent
+	// early-return guards give the same decision table
+	{
+		ctxP := c07ParamIdx(0)
+		call1 := func(f *types.Func) Pat {
+			return func(e *Expr) bool {
+				e = strip(e)
+				return e != nil && e.K == ECall && CallTo(f)(e) && len(e.Args) >= 1 && c07Through(ctxP)(e.Args[0])
 			}
-			switch f := ast.Unparen(call.Fun).(type) {
-			case *ast.Ident:
-				return info.Uses[f]
-			case *ast.SelectorExpr:
-				return info.Uses[f.Sel]
-			}
-			return nil
 		}
-		isNil := func(e ast.Expr, info *types.Info) bool {
-			id, ok := ast.Unparen(e).(*ast.Ident)
-			if !ok {
-				return false
-			}
-			_, n := info.Uses[id].(*types.Nil)
-			return n
+		locCall := func(e *Expr) bool {
+			e = strip(e)
+			return e != nil && e.K == ECall && CallTo(loc)(e) && len(e.Args) == 2 && c07Through(ctxP)(e.Args[0]) && c07Through(c07ParamIdx(1))(e.Args[1])
 		}
-		atom := func(e ast.Expr, info *types.Info) string {
-			switch x := ast.Unparen(e).(type) {
-			case *ast.BinaryExpr:
-				if x.Op == token.EQL && isNil(x.Y, info) {
-					switch callee(x.X, info) {
-					case types.Object(eff):
-						return "alive"
-					case types.Object(enf):
-						return "noenforce"
-					case types.Object(loc):
-						return "nolocal"
-					}
-				}
-			case *ast.CallExpr:
-				if callee(x, info) == types.Object(be) {
-					return "besteffort"
-				}
-			}
-			return ""
-		}
-		var rets []*ast.ReturnStmt
-		ast.Inspect(fd.Body, func(n ast.Node) bool {
-			if r, ok := n.(*ast.ReturnStmt); ok {
-				rets = append(rets, r)
-			}
-			return true
-		})
-		if len(rets) != 1 || len(rets[0].Results) != 1 {
-			c.undecided(R, R+"|cacheableResolutionFailure|formula", fd.Pos(), "no longer a single boolean return expression")
-		} else {
-			c.TruthTableCheck(R, R+"|cacheableResolutionFailure|formula", rets[0].Results[0], pk, atom, []string{"alive", "besteffort", "noenforce", "nolocal"},
-				func(v map[string]bool) bool { return v["alive"] && !v["besteffort"] && v["noenforce"] && v["nolocal"] },
-				"alive ∧ ¬besteffort ∧ noenforce ∧ nolocal")
-		}
+		c.c07FormulaCheck(R, R+"|cacheableResolutionFailure|formula", c.fn(R, pkg+".cacheableResolutionFailure"), 0, []c07Atom{
+			c07AtomTruthy("ctxerr", call1(eff)),
+			c07AtomTruthy("besteffort", call1(be)),
+			c07AtomTruthy("enforceerr", call1(enf)),
+			c07AtomTruthy("localerr", locCall),
+		}, func(v map[string]bool) bool { return !v["ctxerr"] && !v["besteffort"] && !v["enforceerr"] && !v["localerr"] },
+			"EffectiveError(ctx)==nil ∧ ¬IsBestEffortRecursionWork(ctx) ∧ RecursionWorkEnforcementError(ctx)==nil ∧ RequestLocalFailureForResponse(ctx,res)==nil")
 	}
+
 	seen := map[*ssa.Function]bool{}
 	for _, s := range c.CallSites(cacheable) {
 		top := TopLevel(s.Fn)
@@ -878,33 +852,15 @@ func c12R5(c *Ctx) {
 		}
 	}
 
-	// back-edges: calls of a head from inside its cycle
-	backEdges := map[string]string{}
-	for _, h := range []string{"accesslist.List", "accesslog.Log", "as112.AS112", "blocklist.BlockList", "cache.Cache", "chaos.Chaos", "dns64.DNS64", "dnstap.Dnstap", "edns.EDNS", "failover.Failover", "hostsfile.Hostsfile", "kubernetes.Kubernetes", "metrics.Metrics", "ratelimit.RateLimit", "recovery.Recovery", "reflex.Reflex", "views.Views"} {
-		backEdges["(*middleware/"+h+").ServeDNS → (*middleware.Chain).Next"] = "handler continues the chain"
-	}
-	for _, h := range []string{"as112.AS112", "edns.EDNS", "hostsfile.Hostsfile", "ratelimit.RateLimit"} {
-		backEdges["(*middleware/"+h+").serveWire → (*middleware.Chain).Next"] = "wire fast path falls back to the chain"
-	}
-	backEdges["(*middleware.pipelineQueryer).Query → (*middleware.Chain).Next"] = "sub-pipeline dispatch (Query's own depth cap)"
-	backEdges["(*middleware/cache.Cache).handleSpecialQuery → (*middleware.Chain).Next"] = "uncacheable query types pass through"
-	backEdges["(*middleware/reflex.Reflex).handleSuspicious → (*middleware.Chain).Next"] = "log-only mode continues the chain"
-	backEdges["(*middleware/resolver.DNSHandler).ServeDNS → (*middleware.Chain).Next"] = "resolver declines (no question / not its job) and continues the chain"
-	backEdges["(*middleware/cache.Cache).internalExchange → (*middleware.pipelineQueryer).Query"] = "CNAME chase (maxCnameChaseDepth) / prefetch"
-	backEdges["(*middleware/resolver.Resolver).internalExchange → (*middleware.pipelineQueryer).Query"] = "NS address / DNAME target lookups (checkLoop, maxDnameDepth)"
-	backEdges["(*middleware/dns64.DNS64).handlePTR → (*middleware.pipelineQueryer).Query"] = "one PTR rewrite"
-	backEdges["(*middleware/dns64.responseWriter).synthesise → (*middleware.pipelineQueryer).Query"] = "one A lookup per empty AAAA answer"
-	resolveRank := map[string]string{
-		"(*middleware/resolver.Resolver).Resolve":                      "entry",
-		"(*middleware/resolver.Resolver).subQuery":                     "entry",
-		"(*middleware/resolver.Resolver).resolve":                      "rank",
-		"(*middleware/resolver.Resolver).handleLookupError":            "rank",
-		"(*middleware/resolver.Resolver).processAuthoritySection":      "rank",
-		"(*middleware/resolver.Resolver).processDelegation":            "rank",
-		"(*middleware/resolver.Resolver).resolveWithCachedNameservers": "rank",
-	}
-	for k, v := range resolveRank {
-		backEdges[k+" → (*middleware/resolver.Resolver).resolve"] = v
+	// back-edges: calls of a head from inside its cycle.  Chain.Next and
+	// pipelineQueryer.Query bound themselves (checked below), so who calls them
+	// is not a condition of termination and is only recorded.  Resolver.resolve
+	// has no rank of its own: every call of it must carry a recognised rank on
+	// its path (from whichever function, so an extracted helper is fine), or
+	// build a fresh state in one of the tabled entries.
+	backEdges := map[string]string{
+		"(*middleware/resolver.Resolver).Resolve → (*middleware/resolver.Resolver).resolve":  "entry",
+		"(*middleware/resolver.Resolver).subQuery → (*middleware/resolver.Resolver).resolve": "entry",
 	}
 	usedBE := map[string]bool{}
 	var callers []*ssa.Function
@@ -927,14 +883,15 @@ func c12R5(c *Ctx) {
 			}
 			ek := fnKey(from) + " → " + hn
 			key := R + "|back-edge|" + ek
-			reason, ok := backEdges[ek]
-			if !ok {
-				c.violation(R, key, instrPos(sites[0]), "new back-edge into a ranked head from inside its cycle: "+ek+" — not in the enumerated table (needs a rank)")
+			if hn != "(*middleware/resolver.Resolver).resolve" {
+				c.ok(R, key, instrPos(sites[0]), "back-edge into a self-ranked head: "+heads[hn])
 				continue
 			}
-			usedBE[ek] = true
-			if hn != "(*middleware/resolver.Resolver).resolve" || levelF == nil || depthF == nil || nominF == nil || addU32 == nil {
-				c.ok(R, key, instrPos(sites[0]), reason)
+			reason, tabled := backEdges[ek]
+			if tabled {
+				usedBE[ek] = true
+			}
+			if levelF == nil || depthF == nil || nominF == nil || addU32 == nil {
 				continue
 			}
 			// per call site rank for resolve
@@ -958,12 +915,12 @@ func c12R5(c *Ctx) {
 				}
 				ug, tr := c.unguarded(in, ranks, TopLevel(in.Parent()))
 				switch {
-				case reason == "entry" && fresh:
+				case tabled && reason == "entry" && fresh:
 					c.ok(R, key, instrPos(in), "entry: fresh resolveState; recursion continues only through Query (depth cap) or the DS/DNSKEY ascent")
 				case !ug:
 					c.ok(R, key, instrPos(in), "ranked: {level++ | depth>0 | nomin one-shot | error-count one-shot}")
 				default:
-					c.violation(R, key, instrPos(in), "call of resolve without a recognised rank on its path (unbounded re-entry); path "+tr)
+					c.violation(R, key, instrPos(in), "call of resolve without a recognised rank on its path and not a tabled fresh-state entry (unbounded re-entry); path "+tr)
 				}
 			}
 		}
